@@ -325,6 +325,13 @@ class ForceMatrix:
         if removed_index is not None:
             xres = np.insert(xres, removed_index, 1.)
 
+        # interfaces left out of the system (angle limit) keep no value of an earlier solve
+        used = {tuple(element) for element in self.big_edges_to_use}
+        for big_edge in self.frame.internal_big_edges:
+            if tuple(big_edge.get_vertices_ids()) not in used:
+                for e in big_edge.edges:
+                    self.frame.edges[e].tension = 0.
+
         for index, element in enumerate(self.big_edges_to_use):
             edges_to_use = [list(set(self.frame.vertices[element[vid]].ownEdges) & 
                             set(self.frame.vertices[element[vid+1]].ownEdges))[0]
